@@ -77,6 +77,11 @@ def run_case(case: dict) -> dict:
         ev["err"] = err
         ev["obs"] = [] if err else obs
         return ev
+    data = text.encode("utf-8")
+    if case.get("nonascii"):
+        # the same line with every 'a' written as a-umlaut (no tag name contains an 'a'), in a file that also holds a byte
+        # that is not UTF-8: what is read back is mapped the other way, so a value the reader garbles stays garbled
+        data = text.replace("a", "\u00e4").encode("utf-8") + b"stray byte \xff in a later line" + case["eol"].encode()
     d = core.scratch_dir("c02-")
     try:
         if case["via"] == "skip":
@@ -89,7 +94,7 @@ def run_case(case: dict) -> dict:
             ev["obs"] = []
             ev["recognised"] = f.read_bytes() == before and not (d / "f.py.license").exists()
             return ev
-        (d / "f.txt").write_bytes(text.encode("utf-8"))
+        (d / "f.txt").write_bytes(data)
         r = core.run_reuse(["--root", str(d), "--no-multiprocessing", "lint", "--json"])
         if r["exc"] or r["exit"] not in (0, 1):
             ev["crash"] = (r["exc"] or r["err"])[-400:]
@@ -102,7 +107,7 @@ def run_case(case: dict) -> dict:
         elif kind == "lic":
             ev["obs"] = sorted(x["value"] for x in fr[0]["spdx_expressions"])
         elif kind == "cop":
-            ev["obs"] = sorted(x["value"] for x in fr[0]["copyrights"])
+            ev["obs"] = sorted(x["value"].replace("\u00e4", "a") if case.get("nonascii") else x["value"] for x in fr[0]["copyrights"])
         else:
             ev["obs"] = []
         return ev
@@ -138,6 +143,10 @@ def run(ctx: core.Ctx) -> int:
             cases.append({"tid": len(cases) + 1, "g": g, "via": "lint", "place": place, "snippet": bool(j % 4 >= 2),
                           "poison": j % 7 == 0, "eol": ["\n", "\r\n", "\r"][j % 3], "wide": j % 3 == 1,
                           "bom": j % 4 == 2 and place == "head" and j % 7 != 0})
+    # copyright values with non-ASCII letters in a file that is not valid UTF-8 throughout
+    for gi, g in enumerate([g for g in gens if KIND[g["c"]["tag"]] == "cop"][:: 6 if q else 1]):
+        cases.append({"tid": len(cases) + 1, "g": g, "via": "lint", "place": "head", "snippet": bool(gi % 2), "poison": False,
+                      "eol": ["\n", "\r\n", "\r"][gi % 3], "nonascii": True})
     # a third reader of the same lines: `annotate --skip-existing` (licence and copyright tags, all line endings)
     for gi, g in enumerate((gens + gens_s)[:: 40 if q else 8]):
         if KIND[g["c"]["tag"]] == "con":
